@@ -133,6 +133,9 @@ TEMPLATES = [
     lambda t, u: '\\begin{a\\ }' + t + '\\end{a\\ }' + u,
     lambda t, u: '\\begin{a%\n}' + t + '\\end{a%\n}' + u,
     lambda t, u: '\\foo{a}~{' + t + '}' + u + '\\ldots~[1]',
+    lambda t, u: '\\cmd %c\n %d\n[' + t + ']' + u,
+    lambda t, u: '\\cmd{a} %' + t + '\n%\n {' + u + '}',
+    lambda t, u: '\\cmd\n%c\n{' + t + '}' + u,
 ]
 NTEMPLATES = len(TEMPLATES)
 
